@@ -105,11 +105,17 @@ usage:
 			if err != nil {
 				return nil, fmt.Errorf("arg: %w", err)
 			}
+			if i < 0 {
+				return nil, fmt.Errorf("arg: entries_per_node must not be negative: %d", i)
+			}
 			table.S3Options.EntriesPerNode = int(i)
 		case "node_cache_entries":
-			i, err := strconv.ParseInt(s[1], 32, 0)
+			i, err := strconv.ParseInt(s[1], 0, 32)
 			if err != nil {
 				return nil, fmt.Errorf("arg: %w", err)
+			}
+			if i < 0 {
+				return nil, fmt.Errorf("arg: node_cache_entries must not be negative: %d", i)
 			}
 			table.S3Options.NodeCacheEntries = int(i)
 		case "readonly":
